@@ -155,6 +155,8 @@ var quickFlags = []int{
 	os.O_RDONLY, os.O_WRONLY, os.O_RDWR, os.O_RDWR | os.O_APPEND, os.O_WRONLY | os.O_APPEND, os.O_RDWR | os.O_TRUNC,
 	os.O_WRONLY | os.O_CREATE | os.O_EXCL, os.O_RDWR | os.O_CREATE, os.O_RDONLY | os.O_TRUNC, os.O_RDONLY | os.O_APPEND,
 	os.O_RDONLY | os.O_CREATE, os.O_WRONLY | os.O_CREATE | os.O_TRUNC,
+	// refused on an existing file: must not have truncated it
+	os.O_RDWR | os.O_CREATE | os.O_EXCL | os.O_TRUNC,
 }
 
 func allFlags() []int {
